@@ -86,7 +86,7 @@ def gen_simcase(rng, tier):
         rs = [abs(r) for r in rs]
     t = {"arms": arms, "ds": ds, "rs": rs, "cx": cx, "bandits": bandits, "test_size": test_size, "is_ordered": rng.random() < 0.5,
          "batch_size": min(bs, n_test), "is_quick": rng.random() < 0.5, "seed": rng.randint(0, 10**6),
-         "container": rng.choice([0, 0, 0, 1, 2, 3, 4])}
+         "container": rng.choice([0, 0, 0, 1, 2, 3, 4]), "int_rs": rng.random() < 0.4}
     if rng.random() < 0.25:
         t["force_chunk"] = rng.choice([1, 2, 3, 5])      # chunked drivers (model: sim_offline_chunked / sim_online_chunked)
     return t
